@@ -8,7 +8,7 @@ import z3
 from . import ctx as C
 from .symex import Unsupported
 
-MODULES = ["c05", "c03", "c12", "builders", "c19", "c08", "kernels", "printer", "serde", "c06", "c11", "c15", "c16", "scanners", "c10", "options", "shape", "conswalk", "errpos", "utf8dec", "numconv"]
+MODULES = ["c05", "c03", "c12", "builders", "c19", "c08", "kernels", "printer", "serde", "c06", "c11", "c15", "c16", "scanners", "c10", "options", "shape", "conswalk", "errpos", "utf8dec", "numconv", "entry"]
 
 
 class Claim:
@@ -134,7 +134,7 @@ DEFAULT_CONFIRM = {
     "c01_r6rs_escape": ("strings",), "c02_elisp_escape": ("strings",), "c01_escape_composition": ("strings",),
     "c01_r6rs_char": ("chars",), "c02_elisp_char": ("chars",),
     "c03_kernel_totality": ("strings", "chars", "truncation", "tokens"), "c19_kernel_eof": ("truncation", "strings", "chars"),
-    "c08_token_dispatch": ("tokens", "numbers"), "c08_list_protocol": ("lists", "lists_datum", "value_vs_datum", "tokens"), "c03_builder_depth": ("lists",),
+    "c08_token_dispatch": ("tokens", "numbers", "lists", "histories"), "c08_list_protocol": ("lists", "lists_datum", "value_vs_datum", "tokens"), "c03_builder_depth": ("lists",),
     "c01_byte_list": ("lists",), "c10_builder_lockstep": ("value_vs_datum", "lists_datum", "tokens_datum", "lists", "tokens"),
     "c10_top_lockstep": ("value_vs_datum", "lists_datum", "tokens_datum", "lists", "toplevel"),
     "c12_whitespace": ("lists", "toplevel"), "c12_adapters": ("iteration", "toplevel", "lists"),
